@@ -141,6 +141,9 @@ pub fn c05_alphabet(ts: u8, hsa: u8) -> Vec<Sym> {
     v.push(Sym::Collide(rc::RFrame::Sc));
     v.push(Sym::SetOffline);
     v.push(Sym::SetOnline);
+    // one long gap between two polls: a slot time, the station's whole silence time-out
+    v.push(Sym::NoPoll(WaitLen::SlotPlus));
+    v.push(Sym::NoPoll(WaitLen::TimeoutPlus));
     v
 }
 
